@@ -17,7 +17,7 @@ Traces == JsonDeserialize(IOEnv.TRACES)
 VARIABLES tid, l, tm, pm, nb, cur
 tvars == <<tid, l, tm, pm, nb, cur>>
 
-RootMem(t) == Mem(1, 1, Iota(Size(t.root)))
+RootMem(t) == Mem(1, 1, LayOffs(t.root, t.lay))   \* the source ndarray in its memory layout
 \* one initial state per trace: the chains are independent (no hand-over from one trace to the next)
 TraceInit == /\ tid \in 1..Len(Traces) /\ l = 1
              /\ tm = <<RootMem(Traces[tid])>>
@@ -36,12 +36,12 @@ IdxForm(items) == IF \E j \in DOMAIN items : items[j].t = "fancy" THEN "fancy"
                   ELSE IF \E j \in DOMAIN items : items[j].t = "new" THEN "newaxis"
                   ELSE IF \E j \in DOMAIN items : items[j].t = "ell" THEN "ellipsis"
                   ELSE IF \E j \in DOMAIN items : items[j].t = "int" THEN "int" ELSE "slice"
-OpForm(op) == IF op.op = "idx" THEN IdxForm(op.items) ELSE IF op.op = "bin" THEN op.t[1] ELSE ""
+OpForm(op) == IF op.op = "idx" THEN IdxForm(op.items) ELSE IF op.op = "bin" THEN op.t[1] ELSE IF op.op = "mixlist" THEN op.s ELSE ""
 ShapeClass(sh) == IF sh = <<>> THEN "()" ELSE IF Size(sh) = 1 THEN "size1" ELSE IF Size(sh) = 0 THEN "empty" ELSE "multi"
 
 Fail(tag, clause, op, so, ro, extra) ==
   PrintT(ToJson([tag |-> tag, tid |-> tid, l |-> l, clause |-> clause, op |-> op.op, s |-> op.s, form |-> OpForm(op),
-                 srck |-> so.k, srcsh |-> so.sh, k |-> ro.k, sh |-> ro.sh, rclass |-> ShapeClass(ro.sh), u |-> ro.u, nm |-> ro.nm, extra |-> extra]))
+                 srck |-> so.k, srcsh |-> so.sh, k |-> ro.k, sh |-> ro.sh, rclass |-> ShapeClass(ro.sh), u |-> ro.u, nm |-> ro.nm, lay |-> T.lay, extra |-> extra]))
 
 OpStep ==
   LET op == T.h[l]
